@@ -26,12 +26,14 @@ OPS_A = [
     "begin", "begin_tx", "ins", "upd", "del", "create", "commit", "rollback", "commit()", "rollback()", "fail",
     # statements the library carries out in several steps (in a transaction of its own when the user has none):
     "ins_many", "merge", "fail_merge", "fail_create_multi",
+    # a load that does not go through cursor.execute at all
+    "wp",
 ]
 OPS_B = ["begin", "ins", "ins_many", "commit", "rollback()", "fail", "fail_merge"]
 
 
 def all_ops(tier):
-    a = OPS_A if tier != "quick" else ["begin", "ins", "upd", "del", "create", "commit", "rollback", "commit()", "rollback()", "fail", "ins_many", "merge", "fail_merge", "fail_create_multi"]
+    a = OPS_A if tier != "quick" else ["begin", "ins", "upd", "del", "create", "commit", "rollback", "commit()", "rollback()", "fail", "ins_many", "merge", "fail_merge", "fail_create_multi", "wp"]
     return [("A", o) for o in a] + [("B", o) for o in OPS_B]
 
 
@@ -97,7 +99,7 @@ class Model:
             return "fail"
         st = p if p is not None else self.committed
         t = "TA" if c == "A" else "TB"
-        if kind in ("ins", "merge"):
+        if kind in ("ins", "merge", "wp"):
             self.n += 1
             st[t] = st[t] + [self.n]
         elif kind == "ins_many":
@@ -153,6 +155,8 @@ def op_sql(c, kind, m: Model):
     if kind == "merge":
         # an unmatched source row is inserted: same effect as ins, carried out as a multi-step statement
         return f"merge into {t} using (select {m.n + 1} as x) s on {t}.x = s.x when not matched then insert (x) values (s.x)"
+    if kind == "wp":
+        return f"WP:{t.upper()}|{m.n + 1}"
     if kind == "fail_merge":
         return "merge into table_that_does_not_exist using (select 1 as x) s on table_that_does_not_exist.x = s.x when not matched then insert (x) values (s.x)"
     if kind == "fail_create_multi":
@@ -182,6 +186,13 @@ def do(conns, c, kind, sql, policy="fresh"):
         if kind == "rollback()":
             conn.rollback()
             return ("ok", None)
+        if sql.startswith("WP:"):
+            import pandas as pd
+            from fakesnow.pandas_tools import write_pandas
+
+            table, val = sql[3:].split("|")
+            ok_, _chunks, nrows, _ = write_pandas(conn, pd.DataFrame({"X": [int(val)]}), table)
+            return ("ok", [(ok_, nrows)])
         cur = pick_cursor(conns, c, policy)
         if sql.startswith("EM:"):
             stmt, vals = sql[3:].split("|")
